@@ -7,10 +7,10 @@ Open Scope Z_scope.
 
 (* what the graph needs from an AnnotatedBlock *)
 Inductive aexit :=
-| XTerminate
-| XFallThrough (next : Z)
-| XUnconditional (target : sexpr)
-| XBranch (condition when_true : sexpr) (when_false : Z).
+| ATerminate
+| AFallThrough (next : Z)
+| AUnconditional (target : sexpr)
+| ABranch (condition when_true : sexpr) (when_false : Z).
 
 Record ablock := mkab { ab_off : Z; ab_jt : bool; ab_exit : aexit }.
 
@@ -27,7 +27,7 @@ Record cfg := mkcfg { g_blocks : list ablock;            (* sorted by offset: by
                       g_edges : list (node * node) }.    (* in insertion order *)
 
 Definition fall_through (x : aexit) : option Z :=
-  match x with XFallThrough f => Some f | XBranch _ _ f => Some f | _ => None end.
+  match x with AFallThrough f => Some f | ABranch _ _ f => Some f | _ => None end.
 
 Fixpoint find_block (bs : list ablock) (off : Z) : option ablock :=
   match bs with
@@ -69,9 +69,9 @@ Definition block_edges (sorted : list ablock) (jump_targets : list Z) (b : abloc
                   | None => []
                   end in
   match ab_exit b with
-  | XTerminate => ft_edges ++ [(from, NTerm)]
-  | XFallThrough _ => ft_edges
-  | XUnconditional _ | XBranch _ _ _ =>
+  | ATerminate => ft_edges ++ [(from, NTerm)]
+  | AFallThrough _ => ft_edges
+  | AUnconditional _ | ABranch _ _ _ =>
       ft_edges ++ [(from, NBad)] ++
       map (fun t => (from, NBlock t))
           (filter (fun t => match ft_idx with Some f => negb (t =? f) | None => true end) jump_targets)
@@ -97,10 +97,10 @@ Inductive zexit := ZTerminate | ZFallThrough (f : Z) | ZUnconditional (u : bvter
 
 Definition exit_to_z3 (x : aexit) : res zexit :=
   match x with
-  | XTerminate => Ok ZTerminate
-  | XFallThrough f => Ok (ZFallThrough f)
-  | XUnconditional e => do tn <- tr_sexpr_from 0 e ; Ok (ZUnconditional (fst tn))
-  | XBranch c t f =>
+  | ATerminate => Ok ZTerminate
+  | AFallThrough f => Ok (ZFallThrough f)
+  | AUnconditional e => do tn <- tr_sexpr_from 0 e ; Ok (ZUnconditional (fst tn))
+  | ABranch c t f =>
       do tn <- tr_sexpr_from 0 t ;
       do cn <- tr_sexpr_from (snd tn) c ;
       Ok (ZBranch (fst cn) (fst tn) f)
